@@ -180,7 +180,8 @@ def initCirc (kvs : List (String × String)) : Circ OState CState :=
     | some "scripted" => .scripted {}
     | _ => .never
   -- a nil circuit and a zero-value circuit take the same pass-through branch of Execute as a Disabled one
-  let cfg := parseCfg kvs {}
+  -- dflt=1: timeout and both limits were left unset at construction: the documented defaults (1 s, 10, 10) run
+  let cfg := parseCfg kvs (if kvBool kvs "dflt" false then { timeout := 1000000000 } else {})
   { cfg := if (kvGet kvs "pt").isSome then { cfg with disabled := true } else cfg, opener := opener, closer := closer }
 
 def closerKind (kvs : List (String × String)) : CloserKind :=
